@@ -118,6 +118,7 @@ def _decoder(kind, cfg):
             from kaira.models.fec.decoders.reed_muller_decoder import ReedMullerDecoder
 
             _DEC[key] = ReedMullerDecoder(enc, input_type="hard")
+        codes.warm(_DEC[key], enc.code_length)
     return _DEC[key]
 
 
